@@ -282,7 +282,7 @@ def plan(ctx):
     pool = fam.examples() + fam.M + fam.Q + fam.MQ
     units = []
     for name in names:
-        sel = fam.select(pool, 10 if ctx.quick else 70, ctx.seed + 9, name) + ['a:NFn:Gm:SxFx', 'b:Cab:a']
+        sel = fam.select(pool, 10 if ctx.quick else 40, ctx.seed + 9, name) + ['a:NFn:Gm:SxFx', 'b:Cab:a']
         sel = list(dict.fromkeys(sel))
         n = 2 if ctx.quick else 6
         for k in range(n):
